@@ -13,7 +13,8 @@ from ..ruleprops import violation
 RULE = ("seeded elections x wrapper in {completion_by_rule_combination, exhaustion_by_budget_increase, iterated Equal Shares} x base rule in "
         "{Equal Shares, Phragmen, greedy} x integer/fractional steps x resolute/irresolute x exhaustive_stop on/off; predicate = a plain "
         "re-implementation of the loop around the library's own base rule + feasibility/extension/exhaustiveness clauses + budget limit "
-        "unchanged; diffed with the Lean wrapper model; non-trivial = the wrapper made >=2 tries or chained >=2 rules")
+        "unchanged; iterated Equal Shares also against its stopping rule around the independent textbook procedure, incl. a stream with a "
+        "supported project dearer than the budget limit; diffed with the Lean wrapper model; non-trivial = the wrapper made >=2 tries or chained >=2 rules")
 ASSUMPTIONS = ["budget_step > 0 (a non-positive step does not terminate; excluded by the quantifier)", "bounded tries: budget_bound as documented"]
 
 
@@ -67,6 +68,10 @@ def gen(ctx, force_mode=None):
     if force_mode == "iterated":
         # several rounds with binding budgets: larger elections, budget a fraction of the total cost
         case = core.gen_big_election(rng)
+    if force_mode == "iterated-overbudget":
+        # a widely supported project dearer than the whole budget limit: inflated voter budgets can pay for it
+        case = core.gen_overbudget_election(rng)
+        mode = "iterated"
     cfg = {"mode": mode, "tie": rng.choice(["lexico", "lexico", "min_cost", "max_cost", "app_score"]), "res": rng.random() < 0.5,
            "multi": rng.random() < 0.4, "init": []}
     if mode == "increase":
@@ -91,6 +96,8 @@ def gen(ctx, force_mode=None):
         if force_mode == "iterated":
             cfg["res"] = True
             cfg["sat"] = rng.choice(["Cost_Sat", "Cardinality_Sat"])
+        if force_mode == "iterated-overbudget":
+            cfg["res"] = rng.random() < 0.7 or len(case.projects) > 5
     return case, cfg
 
 
@@ -221,7 +228,8 @@ def model_line(case, cfg, built):
     return f"mes {common} tie={cfg['tie']} init= res={1 if cfg['res'] else 0} sat={cfg['sat']} inc={core.q2s(cfg['inc'])} fuel=3000"
 
 
-def check(case, cfg):
+def check(case, cfg, stats=None):
+    stats = {} if stats is None else stats
     built = rules.Built(case, multi=cfg.get("multi", False))
     sig = {"mode": cfg["mode"], "res": cfg["res"], "rule": cfg.get("rule") or ",".join(cfg.get("rules", [])) or "mes"}
     budget_before = toF(built.inst.budget_limit)
@@ -241,6 +249,18 @@ def check(case, cfg):
     ref, tries = reference(case, cfg, built)
     if ref is not None and sorted(outs) != sorted(ref):
         vs.append(violation("wrapper result differs from the plain loop around its base rule", case, cfg, impl=sorted(outs), expected=sorted(ref), sig=dict(sig, clause="loop")))
+    if cfg["mode"] == "iterated":
+        # the same stopping rule around the INDEPENDENT textbook Equal Shares (harness/oracle.py): the loop above runs the
+        # library's own scheme, so whatever that scheme does wrongly at an inflated voter budget it does on both sides
+        U = oracle.utilities(cfg["sat"], case)
+        exp, tries_o, why, last = oracle.mes_iterated(case, U, cfg["inc"], tie=cfg["tie"], branch=not cfg["res"])
+        if exp is not None:
+            stats["why"] = why
+            stats["dear_bought"] = why == "infeasible" and any(case.cost[nm] > case.budget for W in last for nm in W)
+            exp_ids = sorted(sorted(case.rank[p] for p in W) for W in exp)
+            if sorted(outs) != exp_ids:
+                vs.append(violation(f"iterated Equal Shares does not return what its stopping rule prescribes (textbook runs: stop at try {tries_o}, {why})",
+                                    case, cfg, impl=sorted(outs), expected=exp_ids, sig=dict(sig, clause="stopping_rule")))
     if cfg["mode"] == "completion":
         # every outcome of the first rule is contained in some returned allocation
         f, kw = base_callable(cfg["rules"][0])
@@ -263,20 +283,26 @@ def run(ctx, n=None, compare=True):
     n = n or ctx.scale(1500, 12000)
     n_iter = ctx.scale(2500, 20000)  # extra stream: iterated Equal Shares over several budget rounds on larger elections
     n_comp = ctx.scale(5000, 25000)  # extra stream: irresolute completion on tie-rich elections
+    n_over = ctx.scale(1500, 12000)  # round 4, drawn last: iterated Equal Shares with a supported project dearer than the budget limit
     lines, info = [], []
-    for k in range(n + n_iter + n_comp):
+    for k in range(n + n_iter + n_comp + n_over):
         if ctx.budget_s is not None and ctx.elapsed() > ctx.budget_s:
             break
-        case, cfg = gen(ctx, ("iterated" if k < n + n_iter else "completion") if k >= n else None)
-        if k >= n + n_iter:
+        case, cfg = gen(ctx, ("iterated" if k < n + n_iter else "completion" if k < n + n_iter + n_comp else "iterated-overbudget") if k >= n else None)
+        if n + n_iter <= k < n + n_iter + n_comp:
             cfg["res"] = False
             cfg["init"] = []
             # Equal Shares first (several tied, usually non-exhaustive outcomes), then Phragmén (completes some of them to
             # exhaustive allocations and leaves others unfinished), sometimes greedy last
             cfg["rules"] = ["mes:" + ctx.rng.choice(["Cost_Sat", "Cardinality_Sat"]), "phragmen"] + (["greedy:Cost_Sat"] if ctx.rng.random() < 0.4 else [])
-        built, outs, vs, tries = check(case, cfg)
+        stats = {}
+        built, outs, vs, tries = check(case, cfg, stats)
         ctx.evaluations += 1
         ctx.count("mode", cfg["mode"])
+        if k >= n + n_iter + n_comp:
+            ctx.count("stream", "iterated: supported project dearer than the budget limit")
+        if stats.get("why"):
+            ctx.count("iterated_stop", stats["why"] + (": a project dearer than the budget limit was paid for" if stats.get("dear_bought") else ""))
         ctx.count("res", str(cfg["res"]))
         ctx.count("tries", str(min(tries, 10)))
         ctx.violations.extend(vs)
